@@ -38,7 +38,7 @@ MUTANTS = [
     ('C11', 'supp/scope.py', r"self\.declared_at = top\.find_id_loc\(fnode\.name, np\(fnode\)\)", "self.declared_at = top.find_id_loc(' ' + fnode.name, np(fnode), 1, False)", 'C11-R3'),
     ('C12', 'supp/project.py', r"return set\(m for m in modules if IDENTIFIER\.match\(m\)\)", "return modules", 'C12-R2'),
     ('C08', 'supp/name.py', r"                try:\n                    attrs\[k\] = RuntimeName\(k, getattr\(self\.value, k, None\)\)\n                except Exception:\n                    # a property of a live object may raise anything\n                    attrs\[k\] = RuntimeName\(k, None\)\n", "                attrs[k] = RuntimeName(k, getattr(self.value, k, None))\n", 'C08-R1'),
-    ('C06', 'supp/nast.py', r"            if isinstance\(nn, Attribute\):\n                # for self\.item in \.\.\.: an attribute assignment of unknown value\n                self\.top\.add_attr_assign\(self\.flow\.scope, nn, None\)  # type: ignore\[arg-type\]\n", "", 'C06-R4'),
+    ('C06', 'supp/nast.py', r"        self\.add_attr_targets\(node\.target\)\n", "", 'C06-R4'),
     ('C06', 'supp/scope.py', r"if isinstance\(v, RuntimeName\) and v\.is_builtin and v\.name == 'staticmethod':", "if False:", 'C06-R4'),
     ('C06', 'supp/nast.py', r"            if node\.value:\n                # a bare annotation \(self\.x: int\) assigns nothing\n                self\.top\.add_attr_assign", "            if True:\n                self.top.add_attr_assign", 'C06-R4'),
     ('C11', 'supp/util.py', r"        if not PY2:\n            char_columns\(tree, self\.lines\)\n", "", 'C11-R1'),
